@@ -15,9 +15,10 @@ const (
 	faultFIN faultKind = iota
 	faultRST
 	faultStall
+	faultCloseFrame // the peer says goodbye with a WebSocket close frame (status 1000), then closes
 )
 
-func (k faultKind) String() string { return [...]string{"fin", "rst", "stall"}[k] }
+func (k faultKind) String() string { return [...]string{"fin", "rst", "stall", "closeframe"}[k] }
 
 type pconn struct {
 	client, server net.Conn
@@ -152,6 +153,10 @@ func (pc *pconn) kill(k faultKind) {
 		return
 	}
 	switch k {
+	case faultCloseFrame:
+		// only meaningful at a frame boundary (the scenarios use it on an idle link)
+		pc.client.Write([]byte{0x88, 0x02, 0x03, 0xE8})
+		time.Sleep(2 * time.Millisecond)
 	case faultStall:
 		if !pc.stalled {
 			pc.stalled = true
